@@ -346,13 +346,25 @@ pub fn observation_digest(w: &World) -> u64 {
     mc::hash64(&v)
 }
 
+/// The environment menu of a task: scheduling deviations, and on the `L3-flaky` path also the
+/// socket failures the cell survives (a failed send is part of the statement: "or failed").
+pub fn menu_for(t: &Task) -> Menu {
+    if t.topo == "L3-flaky" {
+        let f = crate::c09::transient_faults(&t.cell);
+        return Menu { delay: true, loss: true, ..f };
+    }
+    menu()
+}
+
 pub fn run_once(t: &Task, ch: Chooser) -> RunOutcome {
-    run_once_menu(t, menu(), ch)
+    run_once_menu(t, menu_for(t), ch)
 }
 
 pub fn run_once_menu(t: &Task, menu: Menu, ch: Chooser) -> RunOutcome {
     let topo = drive::topo_named(&t.cell, t.topo);
-    let net = drive::net_cfg(&t.cell, &t.params, topo, menu);
+    let mut net = drive::net_cfg(&t.cell, &t.params, topo, menu);
+    // a path that changes does so before the last round (round 2 in runs of five rounds and more)
+    net.reroute = drive::reroute_named(&t.cell, t.topo).map(|(k, alt)| (k.min(t.params.rounds.saturating_sub(1)), alt));
     drive::run_trace(&t.cell, &t.params, net, ch)
 }
 
@@ -388,6 +400,8 @@ struct Agg {
     reorder_runs: u64,
     dup_runs: u64,
     loss_runs: u64,
+    faulted_runs: u64,
+    rerouted_runs: u64,
     delay_runs: u64,
     late_deliveries: u64,
     determinism_replays: u64,
@@ -450,6 +464,16 @@ pub fn run(args: &Args) -> i32 {
             tasks.push(Task { cell, topo, params: p, bound: d_all.min(3) });
         }
     }
+    // socket failures the configuration survives (the slot is Failed, or Skipped and re-issued)
+    // interleaved with delays and losses; and a path that changes between the two rounds
+    for cell in all_cells().into_iter().filter(|c| c.privileged && !c.ext) {
+        for topo in ["L3-flaky", "grow-2-3", "shrink-4-2"] {
+            let mut p = TraceParams::default();
+            p.rounds = rounds;
+            p.packet_size = if cell.v6 { 96 } else { 84 };
+            tasks.push(Task { cell, topo, params: p, bound: if topo == "L3-flaky" { d_all.min(3) } else { d_all.min(3) - 1 } });
+        }
+    }
     if tier == Tier::Thorough {
         // three rounds (carried-over target distance) on the base cells
         for cell in drive::base_cells() {
@@ -485,6 +509,8 @@ pub fn run(args: &Args) -> i32 {
             local.reorder_runs += u64::from(w.n_reorder > 0);
             local.dup_runs += u64::from(w.n_dup > 0);
             local.loss_runs += u64::from(w.n_loss > 0);
+            local.faulted_runs += u64::from(w.attempts.iter().any(|a| matches!(a.outcome, crate::simnet::AttemptOutcome::Fault { .. })));
+            local.rerouted_runs += u64::from(drive::reroute_named(&t.cell, t.topo).is_some());
             local.awaited_runs += u64::from(
                 w.publishes.iter().any(|p| p.probes.iter().any(|s| matches!(s, ProbeStatus::Awaited(_)))),
             );
@@ -544,6 +570,8 @@ pub fn run(args: &Args) -> i32 {
         a.reorder_runs += local.reorder_runs;
         a.dup_runs += local.dup_runs;
         a.loss_runs += local.loss_runs;
+        a.faulted_runs += local.faulted_runs;
+        a.rerouted_runs += local.rerouted_runs;
         a.delay_runs += local.delay_runs;
         a.late_deliveries += local.late_deliveries;
         a.determinism_replays += local.determinism_replays;
@@ -581,11 +609,13 @@ pub fn run(args: &Args) -> i32 {
     rep.set("determinism_replays", json!(a.determinism_replays));
     rep.set("rule", json!(format!(
         "56 cells x {} topologies x first_ttl{{1,2}}, {} rounds: ALL executions of the real Builder->Tracer->Strategy->Channel<SimSocket>->codec->State stack with <= d deviations (delay, reorder, duplicate, loss) from the ideal network, d={} (all) / {} (base cells); states = nodes of the choice tree; distinct_nontrivial = distinct published-round digests summed over tasks",
-        TOPOLOGIES.len(), rounds, d_all, d_base) + "; + every privileged cell x {L3, silent-target} with rounds one receive wait long (3 rounds, max_ttl 4: late responses land in the next round); + every tcp cell x {L2,L3,silent-mid,dup} x tcp connect timeout {5,15,25,35} ms (connection attempts expiring in the polls in which younger ones complete)"));
+        TOPOLOGIES.len(), rounds, d_all, d_base) + "; + every privileged cell x {L3, silent-target} with rounds one receive wait long (3 rounds, max_ttl 4: late responses land in the next round); + every tcp cell x {L2,L3,silent-mid,dup} x tcp connect timeout {5,15,25,35} ms (connection attempts expiring in the polls in which younger ones complete); + every privileged cell x {L3 with the socket failures the cell survives offered at every send/bind/connect + delay + loss; path 2->3 hops and 4->2 hops changing between the rounds}"));
     rep.observe("executions_with_awaited_probe", json!(a.awaited_runs));
     rep.observe("executions_with_reorder", json!(a.reorder_runs));
     rep.observe("executions_with_duplicate", json!(a.dup_runs));
     rep.observe("executions_with_loss", json!(a.loss_runs));
+    rep.observe("executions_with_a_failed_or_skipped_send", json!(a.faulted_runs));
+    rep.observe("executions_over_a_path_that_changes", json!(a.rerouted_runs));
     rep.observe("executions_with_delay", json!(a.delay_runs));
     rep.observe("late_deliveries_crossing_a_round_boundary", json!(a.late_deliveries));
     for s in a.samples {
@@ -637,12 +667,18 @@ pub fn replay(path: &str) -> i32 {
 }
 
 pub fn replay_as(path: &str, prop: &str) -> i32 {
-    replay_as_menu(path, prop, menu())
+    let (t, choices) = load_task(path);
+    replay_task(&t, &choices, path, prop, menu_for(&t))
 }
 
 pub fn replay_as_menu(path: &str, prop: &str, menu: Menu) -> i32 {
     let (t, choices) = load_task(path);
-    let o = run_once_menu(&t, menu, Chooser::new(&choices, 100_000));
+    replay_task(&t, &choices, path, prop, menu)
+}
+
+fn replay_task(t: &Task, choices: &[u16], path: &str, prop: &str, menu: Menu) -> i32 {
+    let t = t.clone();
+    let o = run_once_menu(&t, menu, Chooser::new(choices, 100_000));
     println!("replay {prop}: cell={} topo={} tcp_connect_timeout={:?} choices={:?}", t.cell.name(), t.topo, t.params.tcp_connect_timeout, choices);
     print_trace(&o);
     let bad = judge(&t, &o);
